@@ -325,7 +325,9 @@ template <typename U, ct_t<T, U> (*KF)(T, U), int Q4, int WU, bool STD> static v
     if (am != 0 && an != 0) vf_assume(c > 0 && (i128)c <= hi_of<C> && c % R(am) == 0 && c % R(an) == 0);
     VF_KNOWN(C14_lcm_zero_zero, m == 0 && n == 0);
     VF_KNOWN(C14_lcm_negative, m < 0 || n < 0);
+#if VF_KF_C14_lcm_negative != 2 // same region: lcm inherits the gcd defect; not while the lcm finding itself is being confirmed
     VF_KNOWN(C14_gcd_negative, m < 0 || n < 0);
+#endif
     VF_KNOWN(C14_gcd_mixed_narrowing, (i128)T(n) != (i128)n);
     VF_KNOWN(C14_lcm_intermediate_overflow, mulw<W + WU>(m, n) > hi_of<P> || mulw<W + WU>(m, n) < lo_of<P>);
     C l = KF(m, n);
@@ -372,7 +374,9 @@ Q q_lcm_diag()
     T x = nd<T>(); vf_assume(!(S && x == TMIN));
     VF_KNOWN(C14_lcm_zero_zero, x == 0);
     VF_KNOWN(C14_lcm_negative, x < 0);
+#if VF_KF_C14_lcm_negative != 2
     VF_KNOWN(C14_gcd_negative, x < 0);
+#endif
     VF_KNOWN(C14_lcm_intermediate_overflow, mulw<2 * W>(x, x) > hi_of<prod_t> || mulw<2 * W>(x, x) < lo_of<prod_t>);
     if (x > 1) vf_witness("x > 1");
     vf_assert((i128)SELF(k_lcm_)(x, x) == absi(x), "lcm(x, x) == |x|");
@@ -381,7 +385,9 @@ Q q_lcm_unit()
 {
     T x = nd<T>(); vf_assume(!(S && x == TMIN));
     VF_KNOWN(C14_lcm_negative, x < 0);
+#if VF_KF_C14_lcm_negative != 2
     VF_KNOWN(C14_gcd_negative, x < 0);
+#endif
     if (x == TMAX) vf_witness("max"); if (x == 0) vf_witness("zero");
     vf_assert((i128)SELF(k_lcm_)(x, 1) == absi(x) && (i128)SELF(k_lcm_)(1, x) == absi(x), "lcm(x, 1) == lcm(1, x) == |x|");
 }
@@ -390,7 +396,9 @@ Q q_lcm_zero()
     T x = nd<T>(); vf_assume(!(S && x == TMIN));
     VF_KNOWN(C14_lcm_zero_zero, x == 0);
     VF_KNOWN(C14_lcm_negative, x < 0);
+#if VF_KF_C14_lcm_negative != 2
     VF_KNOWN(C14_gcd_negative, x < 0);
+#endif
     if (x == TMAX) vf_witness("max");
     vf_assert(SELF(k_lcm_)(x, 0) == 0 && SELF(k_lcm_)(0, x) == 0, "lcm(x, 0) == lcm(0, x) == 0");
 }
